@@ -456,8 +456,16 @@ def drive(rec, table, b, families, rng, exhaustive_queries, nsub=10, nmulti=12, 
     lattice_fams = {'C02L', 'C03', 'C05', 'C06', 'C07', 'C08', 'C09', 'C10', 'C15', 'C18', 'C20'}
     if table.tag.startswith(('widecontra', 'wideanti', 'widerand')):
         families = families - lattice_fams - {'C04', 'C05'}      # astronomically many concepts: derivations only
+    nolattice = table.tag.startswith(('widecontra', 'wideanti', 'widerand'))
+    if 'C05' in families and b % 2 == 0:
+        # the lazy lattice is state: query the covers BEFORE it is computed on half of the behaviours ...
+        for s in osubs:
+            T(rec.neighbors, scramble(s, rng), raw=False)
     if families & lattice_fams:
         T(rec.lat_list)          # first touch of the lazy lattice; the iteration is the index base
+    elif b % 2 == 1 and not nolattice and min(n, m) <= 12:
+        # ... and run the lattice-free calls on a handle whose lattice is already cached on the other half
+        T(rec.lat_list)
     if 'C01' in families:
         for s in osubs:
             T(rec.intension, scramble(s, rng), raw=False)
